@@ -331,3 +331,53 @@ def ob_debounce(n: int, deb: int, maxw: int, t0: int, t1: int, t2: int, k0: int,
     post: _
     """
     return _debounce_scenario(deb, maxw, n, [t0, t1, t2], [k0, k1, k2], 1 if rev else 0)
+
+
+# --------------------------------------------------------------------------------------------- item values
+_VALS29 = [None, 0, "", False, (), "x"]
+
+
+@obligation(quick=150, thorough=400, partitions_quick=[f"v0 == {v}" for v in range(len(_VALS29))],
+            partitions_thorough=[f"v0 == {v} and v1 == {w}" for v in range(len(_VALS29)) for w in range(len(_VALS29))],
+            what="the merge forwards ITEMS, whatever they are: a source whose items are None / 0 / '' / False / () (an Optional-typed stream, a "
+                 "heartbeat placeholder) is merged like any other — every item of every source exactly once, per-source order, the same objects",
+            bounds={"sources": 2, "items": "source 0: 2..3 values from {None, 0, '', False, (), 'x'}; source 1: 2 strings", "delay": "0..1", "done-set order": "both"})
+def ob_merge_item_values(n0: int, v0: int, v1: int, v2: int, d0: int, d1: int, o: int) -> bool:
+    """
+    pre: 2 <= n0 <= 3 and 0 <= v0 < 6 and 0 <= v1 < 6 and 0 <= v2 < 6 and 0 <= d0 <= 1 and 0 <= d1 <= 1 and 0 <= o <= 1
+    post: _
+    """
+    vals = []
+    for v in (v0, v1, v2):
+        for k in range(len(_VALS29)):
+            if v == k:
+                vals.append(_VALS29[k])
+    vals = vals[:3 if n0 == 3 else 2]
+    loop = SymLoop()
+    out = []
+
+    async def src0():
+        for x in vals:
+            await asyncio.sleep(d0)
+            yield x
+
+    async def src1():
+        for k in range(2):
+            await asyncio.sleep(d1)
+            yield "b%d" % k
+
+    async def main():
+        async for it in iu.merge_generators(src0(), src1()):
+            out.append(it)
+            await asyncio.sleep(0)
+
+    with _Patched(o):
+        loop.run_until_complete(main())
+    from1 = [x for x in out if isinstance(x, str) and x.startswith("b")]
+    from0 = [x for x in out if not (isinstance(x, str) and x.startswith("b"))]
+    if from1 != ["b0", "b1"] or len(from0) != len(vals):
+        return False
+    for a, b in zip(from0, vals):
+        if a is not b:
+            return False
+    return True
